@@ -8,6 +8,7 @@ import (
 	"io"
 	"reflect"
 	"strconv"
+	"strings"
 
 	"github.com/Tnze/go-mc/nbt"
 	"github.com/Tnze/go-mc/nbt/dynbt"
@@ -1027,8 +1028,52 @@ func run(c *vm.Ctx) {
 	cfg.MaxArray = 200
 	cfg.LongString = false
 	g := nbtgen.New(cr, cfg)
+	lcfg := cfg // every 16th carrier document may hold strings and member names of 255..32767 bytes
+	lcfg.LongString = true
+	lg := nbtgen.New(cr, lcfg)
 	for i := 0; i < c.Scale(8000, 200000); i++ {
+		if i%16 == 15 {
+			checkCarriers(c, cr, lg)
+			c.Cover("carriers.documents-with-long-names-and-strings")
+			continue
+		}
 		checkCarriers(c, cr, g)
+	}
+	// and for certain: a member name of every length around one and two bytes of length prefix
+	for _, n := range []int{255, 256, 257, 300, 4096, 32767} {
+		long := strings.Repeat("k", n)
+		tree := &refnbt.Value{Tag: refnbt.Compound, Comp: []refnbt.Entry{{Name: "a", V: refnbt.In(1)}, {Name: long, V: &refnbt.Value{Tag: refnbt.Compound, Comp: []refnbt.Entry{{Name: "x" + long[1:], V: refnbt.St("v")}}}}, {Name: "z", V: refnbt.St(long)}}}
+		for _, network := range []bool{false, true} {
+			doc := refnbt.Encode(tree, "", network)
+			for _, mk := range []func() any{func() any { return new(nbt.RawMessage) }, func() any { return new(dynbt.Value) }} {
+				target := mk()
+				wit := func() any {
+					return map[string]any{"member_name_bytes": n, "network": network, "carrier": fmt.Sprintf("%T", target)}
+				}
+				var out []byte
+				var err error
+				if c.Guard("carrier/long-name", wit, func() {
+					d := nbt.NewDecoder(bytes.NewReader(doc))
+					d.NetworkFormat(network)
+					if _, err = d.Decode(target); err != nil {
+						return
+					}
+					var b bytes.Buffer
+					e := nbt.NewEncoder(&b)
+					e.NetworkFormat(network)
+					err = e.Encode(target, "")
+					out = b.Bytes()
+				}) {
+					continue
+				}
+				c.Eval(vm.HashStr("carrier-long-name", fmt.Sprint(n, network, fmt.Sprintf("%T", target))), true)
+				if err != nil || !bytes.Equal(out, doc) {
+					c.Violation("carrier/long-name/not-byte-exact", fmt.Sprintf("a document with member names of %d bytes through %T: err=%v, %d bytes in, %d out, equal=%v", n, target, err, len(doc), len(out), bytes.Equal(out, doc)), wit())
+					continue
+				}
+				c.Cover("carriers.member-name-256-bytes-or-more")
+			}
+		}
 	}
 	for i := 0; i < c.Scale(3000, 60000); i++ {
 		checkCarrierReuse(c, cr, g)
